@@ -4,7 +4,13 @@
      AVTotal        for EVERY byte string the generator returns a valid value,
      AVPanicsOn bs  the generator panics on the input bs,
      AVUnknown      neither is established.
-   Definitions only (extracted and run); soundness is Lemmas/ArbFloatDecideLemmas.v. *)
+   Definitions only (extracted and run); soundness is Lemmas/ArbFloatDecideLemmas.v.
+   Shapes answered (delta = correction_delta, xmax = L + 1.0 * |U - L|):
+     no bound / finite alone                      AVTotal
+     [L, ..  L finite                             AVTotal; with finite: iff MAX + L finite (else unknown)
+     (L, ..  L finite                             delta absorbed at L -> AVPanicsOn []; else as [L, ..
+     .., U]  .., U)                               symmetric (-MAX + U, U - delta < U)
+     two bounds, |U - L| finite                   [L,U] (L,U] [L,U) (L,U): see the definition. *)
 From NV Require Import Base.Util Base.IntTy Base.FloatBits Base.Float Base.Expr
      Macro.Surface Macro.Ast Sem.Guard Sem.Value Sem.Eval Sem.Bytes Sem.ArbFloat.
 Local Open Scope Z_scope.
@@ -60,8 +66,13 @@ Definition arb_float_decide_std (is64 : bool) (d : decl) (vs : list validator) :
             if f_is_finite is64 (f_add is64 (dec_max_finite is64) L) then AVTotal else AVUnknown
           else AVTotal
         else
-          if fin then AVUnknown
-          else if f_gt is64 (f_add is64 L delta) L then AVTotal else AVPanicsOn []
+          (* exclusive: the delta must be visible at L (else the empty input panics); with finite
+             moreover MAX + L must not overflow *)
+          if f_gt is64 (f_add is64 L delta) L then
+            if fin then
+              if f_is_finite is64 (f_add is64 (dec_max_finite is64) L) then AVTotal else AVUnknown
+            else AVTotal
+          else AVPanicsOn []
       else AVUnknown
   (* one upper bound *)
   | Some (fin, None, Some (ui, bu)) =>
@@ -72,8 +83,11 @@ Definition arb_float_decide_std (is64 : bool) (d : decl) (vs : list validator) :
             if f_is_finite is64 (f_add is64 (fb_neg is64 (dec_max_finite is64)) U) then AVTotal else AVUnknown
           else AVTotal
         else
-          if fin then AVUnknown
-          else if f_lt is64 (f_sub is64 U delta) U then AVTotal else AVPanicsOn []
+          if f_lt is64 (f_sub is64 U delta) U then
+            if fin then
+              if f_is_finite is64 (f_add is64 (fb_neg is64 (dec_max_finite is64)) U) then AVTotal else AVUnknown
+            else AVTotal
+          else AVPanicsOn []
       else AVUnknown
   (* two bounds, with or without finite *)
   | Some (_, Some (li, bl), Some (ui, bu)) =>
@@ -83,10 +97,18 @@ Definition arb_float_decide_std (is64 : bool) (d : decl) (vs : list validator) :
         match li, ui with
         | true, true => if f_le is64 L U then AVTotal else AVUnknown
         | true, false =>
-            if f_le is64 L (f_sub is64 U delta) then
-              if f_lt is64 (f_sub is64 (dec_xmax is64 L U) delta) U then AVTotal
-              else if f_ge is64 (dec_xmax is64 L U) U then AVPanicsOn (repeat 255 (fsize is64))
+            (* even the largest scaled value is below U: no correction ever fires *)
+            if f_lt is64 (dec_xmax is64 L U) U then AVTotal
+            (* the largest overshoot is absorbed by one delta: the corrected value must stay >= L *)
+            else if f_lt is64 (f_sub is64 (dec_xmax is64 L U) delta) U then
+              if f_le is64 L (f_sub is64 U delta) then AVTotal
+              (* the range is narrower than the delta: the corrected xmax falls below L *)
+              else if f_ge is64 (dec_xmax is64 L U) U
+                      && f_lt is64 (f_sub is64 (dec_xmax is64 L U) delta) L
+              then AVPanicsOn (repeat 255 (fsize is64))
               else AVUnknown
+            (* it is not: the all-ones input panics *)
+            else if f_ge is64 (dec_xmax is64 L U) U then AVPanicsOn (repeat 255 (fsize is64))
             else AVUnknown
         | false, true =>
             if f_lt is64 L U then
@@ -97,7 +119,20 @@ Definition arb_float_decide_std (is64 : bool) (d : decl) (vs : list validator) :
                && f_lt is64 (f_sub is64 (dec_xmax is64 L U) delta) U
                && f_gt is64 (f_add is64 L delta) L
                && f_lt is64 (f_add is64 L delta) U
-            then AVTotal else AVUnknown
+            then AVTotal
+            (* the delta is absorbed at L (and L < U): the empty input panics *)
+            else if f_lt is64 L U && negb (f_gt is64 (f_add is64 L delta) L) then AVPanicsOn []
+            (* the largest overshoot is not absorbed by one delta: the all-ones input panics *)
+            else if f_ge is64 (dec_xmax is64 L U) U
+                    && negb (f_lt is64 (f_sub is64 (dec_xmax is64 L U) delta) U)
+                    && f_gt is64 (dec_xmax is64 L U) L
+            then AVPanicsOn (repeat 255 (fsize is64))
+            (* the range is narrower than the delta: the corrected xmax falls to L or below *)
+            else if f_ge is64 (dec_xmax is64 L U) U
+                    && f_gt is64 (dec_xmax is64 L U) L
+                    && f_le is64 (f_sub is64 (dec_xmax is64 L U) delta) L
+            then AVPanicsOn (repeat 255 (fsize is64))
+            else AVUnknown
         end
       else AVUnknown
   end.
